@@ -143,7 +143,9 @@ def namespace(env, kernel_ns):
         shift=lambda g, dx, dy: g.shift(_f(dx), _f(dy)), scale=lambda g, a, b: g.scale(_f(a), _f(b)),
         repeat=lambda g, a, b, c, d: g.repeat(a, b, _f(c), _f(d)))
     from typing import Literal
-    ns = dict(schedule=schedule, gate=gate, init=init, measure=measure, spec=spec, grid=grid, filled=filled, Literal=Literal, ilist=ilist, Any=Any,
+    # the list constructors of kirin's ilist module that kernels use, evaluated natively
+    ilist_ns = pytypes.SimpleNamespace(IList=ilist.IList, range=lambda *a: ilist.IList(list(range(*a))))
+    ns = dict(schedule=schedule, gate=gate, init=init, measure=measure, spec=spec, grid=grid, filled=filled, Literal=Literal, ilist=ilist_ns, Any=Any,
               __mark_early_return__=lambda: env.early_returns.append(len(env.events)),
               move=lambda f=None, **kw: (f if f is not None else (lambda g: g)))
     ns.update(kernel_ns)
